@@ -72,7 +72,7 @@ class Sandbox:
         if env:
             e.update(env)
         try:
-            p = subprocess.run([bin or cli_bin()] + list(args), cwd=str(cwd or self.root), env=e,
+            p = subprocess.run([bin or cli_bin()] + list(args), cwd=(cwd if isinstance(cwd, bytes) else str(cwd or self.root)), env=e,
                                input=stdin, stdout=subprocess.PIPE, stderr=subprocess.PIPE,
                                timeout=timeout)
             return p.returncode, p.stdout, p.stderr
